@@ -418,6 +418,24 @@ pub proof fn lemma_same_end_sound(s: SS, a: Unifiable, b: Unifiable)
     }
 }
 
+// some position of t holds the anonymous variable
+pub open spec fn has_anon(t: Unifiable) -> bool
+    decreases t,
+{
+    match t {
+        Unifiable::Anonymous => true,
+        Unifiable::SComplex(ts) => has_anon_seq(ts@),
+        Unifiable::SFunction{name, terms} => has_anon_seq(terms@),
+        Unifiable::SLinkedList{term, next, count, tail_var} => has_anon(*term) || has_anon(*next),
+        _ => false,
+    }
+}
+pub open spec fn has_anon_seq(s: Seq<Unifiable>) -> bool
+    decreases s,
+{
+    s.len() > 0 && (has_anon(s[0]) || has_anon_seq(s.drop_first()))
+}
+
 pub open spec fn post_sound(a: Unifiable, b: Unifiable, res: Option<RSS>) -> bool {
     res matches Some(r) ==> sound(r@, a, b)
 }
